@@ -100,6 +100,12 @@ func (runInfo *runInfoStruct) invokeLetMemberExpr(expr *ast.MemberExpr) {
 
 	// Map
 	case reflect.Map:
+		if !stringType.AssignableTo(runInfo.rv.Type().Key()) {
+			// the member name is a string key
+			runInfo.err = newStringError(expr, "index type string cannot be used for map index type "+runInfo.rv.Type().Key().String())
+			runInfo.rv = nilValue
+			return
+		}
 		value, runInfo.err = convertReflectValueToType(value, runInfo.rv.Type().Elem())
 		if runInfo.err != nil {
 			runInfo.err = newStringError(expr, "type "+value.Type().String()+" cannot be assigned to type "+runInfo.rv.Type().Elem().String()+" for map")
